@@ -33,7 +33,7 @@ type ON = *string
 // Coin in the model's vocabulary. D is a denom class:
 //
 //	0 ""  (absent, invalid)   1 "stake" (held by everybody, a registered token)
-//	2 "tcoin" (valid, nobody holds it)   3 "!bad" (invalid characters)
+//	2 "tcoin" (valid, nobody holds it)   3 "!bad" (invalid characters)   4 "btc" (valid, held by everybody)
 //	10 "htltbnb"  11 "htltinc" (htlc asset denoms)   12 "htlt!x" (htlc prefix, invalid characters)
 type Coin struct {
 	D int
@@ -66,6 +66,10 @@ func denomStr(d int) string {
 		return "tcoin"
 	case 3:
 		return "!bad"
+	case 4:
+		return "btc" // valid, held by everybody, not the bond denom
+	case 5:
+		return "feetok" // symbol of a token of scale 6 issued by the token driver's setup (min unit "ufeetok")
 	case 10:
 		return "htltbnb"
 	case 11:
@@ -77,7 +81,7 @@ func denomStr(d int) string {
 }
 
 func denomClass(s string) int {
-	for _, d := range []int{0, 1, 2, 3, 10, 11, 12} {
+	for _, d := range []int{0, 1, 2, 3, 4, 5, 10, 11, 12} {
 		if denomStr(d) == s {
 			return d
 		}
@@ -223,6 +227,9 @@ type module interface {
 	validate() (int, string)
 	updateMsg(authority string) sdk.Msg
 	initGenesis(e *lib.Env) lib.Outcome
+	// genesisStages: result codes (0 nil, 1 error, 2 panic) of types.ValidateGenesis and of keeper.SetParams
+	// (on a discarded cache context) for the submitted set
+	genesisStages(e *lib.Env) (int, int)
 	newEnv() *lib.Env
 	// setup run on both environments before the update (under default parameters)
 	setup(e *lib.Env)
@@ -247,6 +254,10 @@ func run(h History, m module) lib.Case {
 	case 1:
 		upd = es.Deliver(m.updateMsg(strangerAddr()))
 	default:
+		// the two guards of InitGenesis observed separately (evidence only: which stage does the rejecting)
+		vg, sp := m.genesisStages(es)
+		lib.Stat(c.Stats, fmt.Sprintf("genesis:%s:validate=%d,ValidateGenesis=%d,SetParams=%d", h.Module, val, vg, sp))
+		c.Steps = append(c.Steps, fmt.Sprintf("genesis stages: ValidateGenesis=%d SetParams=%d", vg, sp))
 		upd = m.initGenesis(es)
 	}
 	after := m.stored(es)
